@@ -218,6 +218,14 @@ fn history(side: &dyn Side, seed: u64, ctx_arc: &Arc<Tracked>) -> (u64, Vec<Stri
                     }
                 }
                 if r.chance(1, 3) { v = side.grow_vec(v, r.below(20) as u64); }
+                if r.chance(1, 2) {
+                    // a clone made in this module is this module's vector: grown and released here
+                    let mut c = v.clone();
+                    for i in 0..r.below(30) { c.push(i as u64 ^ 0x77); }
+                    c.insert(0, 9);
+                    d = mix(d, c.iter().fold(c.len() as u64, |a, x| mix(a, *x)));
+                    if r.chance(1, 2) { drop(c); } else { d = mix(d, side.take_vec(c)); }
+                }
                 let s: u64 = v.iter().fold(v.len() as u64, |a, x| mix(a, *x));
                 d = mix(d, if r.chance(1, 2) { drop(v); s } else { s ^ side.take_vec(v) });
             }
